@@ -387,6 +387,7 @@ var specRand = pbt.Register(&pbt.Spec[Case]{
 		return Case{Keys: keys}
 	},
 	Run: Run, Quick: 20000, Thorough: 150000,
+	Replicas: 4, ReplicaEvery: 8,
 })
 
 // enumSeqs yields every sequence over 0..k-1 of length 0..maxLen.
@@ -428,6 +429,7 @@ var specEnum = pbt.Register(&pbt.Spec[Case]{
 		}
 	},
 	Run: Run, Exhaustive: true,
+	Replicas: 4, ReplicaEvery: 8,
 })
 
 func TestC15Enum(t *testing.T) { pbt.Check(t, specEnum) }
